@@ -268,6 +268,83 @@ inline std::vector<std::vector<std::string>> parse_records(const std::string& te
     return out;
 }
 
+// minimal JSON syntax check (records from a measuring child whose heap may be damaged are not trusted)
+struct JsonCheck {
+    const std::string& s;
+    size_t p = 0;
+    int depth = 0;
+    explicit JsonCheck(const std::string& str) : s(str) {}
+    void ws() { while (p < s.size() && (s[p] == ' ')) p++; }
+    bool lit(const char* w) { size_t n = strlen(w); if (s.compare(p, n, w) == 0) { p += n; return true; } return false; }
+    bool str()
+    {
+        if (p >= s.size() || s[p] != '"') return false;
+        for (p++; p < s.size(); p++) {
+            unsigned char ch = (unsigned char)s[p];
+            if (ch == '\\') { p++; if (p >= s.size()) return false; continue; }
+            if (ch == '"') { p++; return true; }
+            if (ch < 0x20) return false;
+        }
+        return false;
+    }
+    bool num()
+    {
+        size_t q = p;
+        if (p < s.size() && s[p] == '-') p++;
+        if (lit("Infinity")) return true;
+        while (p < s.size() && (isdigit((unsigned char)s[p]) || s[p] == '.' || s[p] == 'e' || s[p] == 'E' || s[p] == '+' || s[p] == '-')) p++;
+        return p > q && isdigit((unsigned char)s[p - 1]);
+    }
+    bool val()
+    {
+        if (++depth > 20) return false;
+        ws();
+        bool ok = false;
+        if (p >= s.size()) ok = false;
+        else if (s[p] == '{') {
+            p++; ws();
+            if (p < s.size() && s[p] == '}') { p++; ok = true; }
+            else for (;;) {
+                ws(); if (!str()) break; ws();
+                if (p >= s.size() || s[p] != ':') break;
+                p++; if (!val()) break; ws();
+                if (p < s.size() && s[p] == ',') { p++; continue; }
+                if (p < s.size() && s[p] == '}') { p++; ok = true; }
+                break;
+            }
+        }
+        else if (s[p] == '[') {
+            p++; ws();
+            if (p < s.size() && s[p] == ']') { p++; ok = true; }
+            else for (;;) {
+                if (!val()) break; ws();
+                if (p < s.size() && s[p] == ',') { p++; continue; }
+                if (p < s.size() && s[p] == ']') { p++; ok = true; }
+                break;
+            }
+        }
+        else if (s[p] == '"') ok = str();
+        else if (lit("true") || lit("false") || lit("null") || lit("NaN")) ok = true;
+        else ok = num();
+        depth--;
+        return ok;
+    }
+};
+inline bool json_ok(const std::string& v)
+{
+    JsonCheck j(v);
+    if (!j.val()) return false;
+    j.ws();
+    return j.p == v.size();
+}
+inline bool plain_key(const std::string& k)
+{
+    if (k.empty() || k.size() > 60) return false;
+    for (char ch : k)
+        if (!(isalnum((unsigned char)ch) || ch == '_')) return false;
+    return true;
+}
+
 inline void mkdirs(const std::string& path)
 {
     std::string cur;
